@@ -26,7 +26,7 @@ def tables(m):
 '''
 
 
-def history_ob(M, prefix, oid, timeout=400, disc=None):
+def history_ob(M, prefix, oid, timeout=400, disc=None, fs_range=None):
     n = 2**M - 1
     pre_code = "\n".join(f"    request(p, mods, E, {fs}, {ts}, {d}, {form})" for fs, ts, d, form in prefix)
     body = f"""
@@ -45,7 +45,7 @@ def history_ob(M, prefix, oid, timeout=400, disc=None):
             return False
     return links_ok(q) and edges(q) == E and edges_out(q) == E
 """
-    params = [R("fs", 1, n), R("ts", 1, n), B("disc")]
+    params = [R("fs", *(fs_range or (1, n))), R("ts", 1, n), B("disc")]
     if disc is not None:
         body = body.replace("request(p, mods, E, fs, ts, disc, 0)", f"request(p, mods, E, fs, ts, {disc}, 0)")
         params = params[:2]
@@ -54,8 +54,9 @@ def history_ob(M, prefix, oid, timeout=400, disc=None):
               group="history", shape=f"M={M}; concrete prefix {prefix}; last request symbolic", symbolic=f"source subset, target subset, connect/disconnect (method-call form; C07 shows the three call forms reach the same states)", timeout=timeout)
 
 
-def ref_ob(shape, slnk_mode, oid):
-    """shape: list (per module 0..3) of in-link list lengths; entries symbolic in [-1, 4)"""
+def ref_ob(shape, slnk_mode, oid, fix_first=None):
+    """shape: list (per module 0..3) of in-link list lengths; entries symbolic in [-1, 4); fix_first: the first entry takes
+    this concrete value (the obligation is then one of len(shape)+1 that together cover all values)"""
     params, pre = [], []
     lists = []
     for mi, ln in enumerate(shape):
@@ -71,7 +72,15 @@ def ref_ob(shape, slnk_mode, oid):
     for mi, names in enumerate(lists):
         ll = "[" + ", ".join(names) + "]"
         mods.append(ll)
+    first_line = ""
+    if fix_first is not None:
+        fname = params[0][0]
+        params = params[1:]
+        import re as _re
+        pre = [_re.sub(r"\b%s\b" % fname, "(%d)" % fix_first, x) for x in pre]
+        first_line = f"{fname} = {fix_first}"
     body = f"""
+    {first_line}
     L = [{', '.join(mods)}]
     N = {len(shape)}
     # the slot table SunVox writes: position of this link in the source's out list, sources' out
@@ -113,7 +122,7 @@ def ref_ob(shape, slnk_mode, oid):
     return Ob(oid, build(params, body, setup=SETUP, extra_pre=pre),
               f"a reference-encoded project (SLnK {slnk_mode}) loads with mutually consistent link tables whose directed graph and in-link order equal the file's SLNK content, and stays so after save/load",
               group="reference", shape=f"Output + {len(shape) - 1} Amplifiers; in-link list lengths {shape}; SLnK present for: {slnk_mode}",
-              symbolic=f"every SLNK entry over -1..{len(shape) - 1} (no source twice in a list)", timeout=400)
+              symbolic=f"every SLNK entry over -1..{len(shape) - 1} (no source twice in a list)" + (f"; first entry = {fix_first} (one of {len(shape) + 1} obligations covering its values)" if fix_first is not None else ""), timeout=400)
 
 
 def obligations(tier, seed):
@@ -137,12 +146,21 @@ def obligations(tier, seed):
         for d in (False, True):
             obs.append(history_ob(M, pre, f"hist.freed.{j}.{'dis' if d else 'con'}", disc=d))
     if tier == "thorough":
+        # M = 4: 15 x 15 x 2 last requests per prefix is more than one run explores in the budget (measured: 900 s not enough),
+        # so the source subset is cut into 3 segments and connect/disconnect is fixed per obligation; together they cover all.
         reqs4 = c07.all_requests(4)
-        for i in range(12):
+        for i in range(6):
             a = rnd.choice(reqs4)
-            obs.append(history_ob(4, [(a[0], a[1], False, rnd.randrange(3))], f"hist.M4.{i}", timeout=900))
+            for lo in (1, 6, 11):
+                for d in (False, True):
+                    obs.append(history_ob(4, [(a[0], a[1], False, rnd.randrange(3))], f"hist.M4.{i}.fs{lo}.{'dis' if d else 'con'}", timeout=900, disc=d, fs_range=(lo, lo + 4)))
     shapes = [[2, 1, 0], [1, 1, 1], [0, 2, 1]] if tier == "quick" else [[2, 1, 0], [1, 1, 1], [0, 2, 1], [2, 1, 1, 0], [1, 2, 0, 1], [3, 0, 0], [1, 1, 1, 1]]
     for si, sh in enumerate(shapes):
         for mode in ("all", "none", "sunvox"):
-            obs.append(ref_ob(sh, mode, f"ref.{si}.{mode}"))
+            if len(sh) >= 4 and sum(sh) >= 4:
+                # 5^4 entry combinations do not finish in one run (measured): one obligation per value of the first entry
+                for fv in range(-1, len(sh)):
+                    obs.append(ref_ob(sh, mode, f"ref.{si}.{mode}.f{fv + 1}", fix_first=fv))
+            else:
+                obs.append(ref_ob(sh, mode, f"ref.{si}.{mode}"))
     return obs
